@@ -67,6 +67,15 @@ pub fn gen_orig_map(rng: &mut Rng, program: &str, shape: &MapShape) -> Map {
         if dup {
             m.names[2] = m.names[0].clone();
         }
+        // the same text in two roles: an identifier named like a source
+        if rng.chance(1, 4) {
+            let last = m.sources.len() - 1;
+            m.sources[last] = "index".to_string();
+            m.names[3] = "index".to_string();
+            if rng.chance(1, 2) {
+                m.names[0] = m.sources[0].clone();
+            }
+        }
     }
     let line_p = if shape.sparse { 3 } else { 9 };
     let mut sl = rng.below(5) as u32;
